@@ -9,6 +9,9 @@ namespace Gd.Jc2m.Spec
 open Gd Gd.Jc2m Gd.Faults
 open Gd.Gs3.Spec (Plan Attempt Ending Stage scriptAt sendsWith faultyFaults wfPlan malformedError)
 
+/-- the reply: one data packet (`Gs3.Spec.wfPlan retries (pool cfg st)`: no failed attempt receives part of it) -/
+def pool (cfg : Config) (st : State) : List Bytes := [dataPacket cfg st]
+
 /-- what the peer delivers under the plan -/
 def faultyScript (cfg : Config) (st : State) (plan : Plan) : List Delivery :=
   scriptAt cfg.challenge plan [dataPacket cfg st]
@@ -21,6 +24,6 @@ def faultyExpected (st : State) (plan : Plan) : Res Response :=
   match plan.ending with
   | .valid => .ok (expected st)
   | .gaveUp => .err (lastError Attempt.error plan.fails)
-  | .malformed _ m => .err (malformedError m)
+  | .malformed _ _ m => .err (malformedError m)
 
 end Gd.Jc2m.Spec
